@@ -29,12 +29,13 @@ import ForML.Lemmas.C03MapReduce
 namespace ForML.Compose
 
 /-- an expression the operator library accepts: `payload.Dump`'s train-mode actor is trained, hence stateful
-(`Worker.train` refuses a stateless actor with a TopologyError — see `C03_debug_stateless_refused`) -/
+(`Worker.train` refuses a stateless actor with a TopologyError — see `C03_debug_stateless_refused`), and
+`payload.MapReduce` has at least one mapper (its constructor raises `ValueError('Mappers required')` otherwise) -/
 def Expr.trainable : Expr → Bool
   | .seq l r => l.trainable && r.trainable
   | .debug _ t => t.stateful
   | .wrap .. => true
-  | .mapreduce .. => true
+  | .mapreduce ms _ => !ms.isEmpty
   | .stack .. => true
 
 /-- the fragment inside the induction: everything but the stacking ensemble -/
@@ -85,16 +86,18 @@ private theorem denoteC_seq_origin (l r : Expr) :
 /-- every stack-free expression realises its denotation: composed onto any scope (`compose`) and expanded on its own
 (`expand`).  Structural induction; `>>` expands its right side with the left side as *its* scope. -/
 private theorem realises : ∀ (e : Expr), e.stackFree = true → e.trainable = true →
-    (∀ (scope : GraphM Trunk) (S : Scope), Spec scope S → Spec (compose e scope) (denoteC e S)) ∧
-      Spec (expand e) (denoteC e Scope.origin)
+    (∀ (scope : GraphM Trunk) (S : Scope), Spec True scope S → Spec True (compose e scope) (denoteC e S)) ∧
+      Spec True (expand e) (denoteC e Scope.origin)
   | .wrap lab app trn, _, _ => by
     refine ⟨fun scope S hs => ?_, ?_⟩
     · rw [compose, denoteC]; exact spec_wrap hs lab app trn
     · rw [expand, denoteC]; exact spec_wrap spec_new lab app trn
-  | .mapreduce ms red, _, _ => by
+  | .mapreduce ms red, _, htr => by
+    have hms : ms ≠ [] := by
+      intro e; subst e; simp [Expr.trainable] at htr
     refine ⟨fun scope S hs => ?_, ?_⟩
-    · rw [compose, denoteC]; exact spec_mapreduce hs ms red
-    · rw [expand, denoteC]; exact spec_mapreduce spec_new ms red
+    · rw [compose, denoteC]; exact spec_mapreduce hs ms hms red
+    · rw [expand, denoteC]; exact spec_mapreduce spec_new ms hms red
   | .debug a t, _, ht => by
     have ht' : t.stateful = true := by simpa [Expr.trainable] using ht
     refine ⟨fun scope S hs => ?_, ?_⟩
@@ -105,7 +108,7 @@ private theorem realises : ∀ (e : Expr), e.stackFree = true → e.trainable = 
     have htr' : l.trainable = true ∧ r.trainable = true := by simpa [Expr.trainable] using htr
     have ihl := realises l hsf'.1 htr'.1
     have ihr := realises r hsf'.2 htr'.2
-    have hm : Spec (compose r (expand l)) (denoteC r (denoteC l Scope.origin)) := ihr.1 _ _ ihl.2
+    have hm : Spec True (compose r (expand l)) (denoteC r (denoteC l Scope.origin)) := ihr.1 _ _ ihl.2
     refine ⟨fun scope S hs => ?_, ?_⟩
     · rw [compose]
       have : denoteC (.seq l r) S = seqSem S (denoteC r (denoteC l Scope.origin)) := by
@@ -129,7 +132,7 @@ the preceding path produces and passes on the output of the freshly trained acto
 same actors with those states in the same order; i.e. `run e = ⟦e⟧`.  Missing from the induction: `Expr.stack`. -/
 theorem C03_coherence_partial (e : Expr) (hsf : e.stackFree = true) (htr : e.trainable = true) : Coherent e := by
   obtain ⟨t, g', W', hrun, hok⟩ := (realises e hsf htr).2 {} World.empty (.input 0) (.input 1) (.input 2) 0 inv_empty
-    (Nat.le_refl _)
+    Wired.empty (Nat.le_refl _)
   have hexp : expand e {} = .ok (t, g') := hrun
   obtain ⟨d1, d2, d3⟩ := hok.distinct
   -- the environment of the run gives the three heads the source's outputs, as the valuation does
@@ -170,7 +173,7 @@ theorem C03_coherence_partial (e : Expr) (hsf : e.stackFree = true) (htr : e.tra
 the scope realises, `scope >> e`'s graphs realise `⟦e⟧` over it (this is the induction hypothesis made public:
 it is what lets a scope-wrapping operator expand its left side several times). -/
 theorem C03_compose_realises (e : Expr) (hsf : e.stackFree = true) (htr : e.trainable = true)
-    (scope : GraphM Trunk) (S : Scope) (hs : Spec scope S) : Spec (compose e scope) (denoteC e S) :=
+    (scope : GraphM Trunk) (S : Scope) (hs : Spec True scope S) : Spec True (compose e scope) (denoteC e S) :=
   (realises e hsf htr).1 scope S hs
 
 /-- scoping is semantic: `a >> (b >> c)` hands `c` the scope `b`, `(a >> b) >> c` hands it `a >> b` — both are inside
@@ -208,8 +211,8 @@ theorem C03_independent_expansions_partial (e : Expr) (hsf : e.stackFree = true)
         eval g2 ρ g2.fuel T2.label.publisher = some (denote e a2 t2 l2).label ∧
         trainedStates g2 ρ g2.fuel g2.trains = some ((denote e a1 t1 l1).states ++ (denote e a2 t2 l2).states) := by
   have hspec := (realises e hsf htr).2
-  obtain ⟨T1, g1, W1, hrun1, ok1⟩ := hspec {} World.empty a1 t1 l1 0 inv_empty (Nat.le_refl _)
-  obtain ⟨T2, g2, W2, hrun2, ok2⟩ := hspec g1 W1 a2 t2 l2 0 ok1.inv (Nat.zero_le _)
+  obtain ⟨T1, g1, W1, hrun1, ok1⟩ := hspec {} World.empty a1 t1 l1 0 inv_empty Wired.empty (Nat.le_refl _)
+  obtain ⟨T2, g2, W2, hrun2, ok2⟩ := hspec g1 W1 a2 t2 l2 0 ok1.inv ok1.wired (Nat.zero_le _)
   have hlt1 : ∀ n, W1.live n → n < g1.next := fun n hn => (ok1.inv.liveLt n hn).1
   -- the first trunk seen from the final valuation
   have old : ∀ q : PubRef, W1.live q.node → W2.live q.node ∧ W2.σ q = W1.σ q := by
